@@ -235,6 +235,18 @@ def check_module(acc: Acc, s, module: str, case: dict) -> None:
 		bad('export/raise', f'{type(e).__name__}: {e}')
 		return
 	acc.see('law', 'export')
+	# exporting is a pure reading of the table: a second export gives the same rows in the same order
+	try:
+		again = json.dumps(db.to_json(serializer, module), separators=(',', ':'))
+	except Exception as e:  # noqa
+		bad('export/raise', f'second export: {type(e).__name__}: {e}')
+		return
+	acc.see('law', 'export-twice')
+	if again != text:
+		k1, k2 = list(data2), list(json.loads(again))
+		i = next((j for j, (a, b) in enumerate(zip(k1, k2)) if a != b), min(len(k1), len(k2)))
+		bad('export/second-export-differs', f'row order or content differs between two exports in a row; first differing key #{i}: {k1[i] if i < len(k1) else None} vs {k2[i] if i < len(k2) else None}')
+		return
 	if set(data2) != set(before):
 		bad('export/keys', f'exported {len(data2)} keys, the table holds {len(before)} for the module; missing {sorted(set(before) - set(data2))[:4]}, extra {sorted(set(data2) - set(before))[:4]}')
 		return
@@ -278,6 +290,25 @@ def check_module(acc: Acc, s, module: str, case: dict) -> None:
 		if len(db) != total_before:
 			bad('import/size', f'round {round_no}: table has {len(db)} symbols, had {total_before}')
 			return
+	# the table restored from the export exports to the same data again (order replayed against forward references once more)
+	try:
+		data3 = json.loads(json.dumps(db.to_json(serializer, module), separators=(',', ':')))
+	except Exception as e:  # noqa
+		bad('export/raise', f'export of the re-imported table: {type(e).__name__}: {e}')
+		return
+	acc.see('law', 'export-after-import')
+	seen2: set[str] = set()
+	for key, row in data3.items():
+		refs = list(row.get('attrs', {}).values()) + ([row['origin'], row['via']] if row['class'] == 'Reflection' else [])
+		for ref in refs:
+			if ref not in known and ref not in seen2 and ref != key:
+				bad('export/forward-reference', f'export of the re-imported table: row {key!r} refers to {ref!r} which comes later (or not at all)')
+				return
+		seen2.add(key)
+	if data3 != data2:
+		diff = next((k for k in data2 if data3.get(k) != data2[k]), None)
+		bad('export/after-import-differs', f'the re-imported table exports other data than was imported; first differing row {diff!r}: {data2.get(diff)} vs {data3.get(diff)}')
+		return
 	acc.case(sig_of(sorted(str(v[1]) for v in before.values())), {'module': module, 'symbols': len(before), 'sample': [f'{k}: {v[1]}'[:160] for k, v in list(before.items())[:3]]}, nontrivial)
 
 
